@@ -53,6 +53,39 @@ def check_unpack(cls, widths, pre, post, raw):
     return None
 
 
+def expected_int(widths, vals):
+    want = 0
+    shift = sum(widths)
+    for i, w in enumerate(widths):
+        shift -= w
+        want = want + (vals[i] % (1 << w)) * (1 << shift)
+    return want
+
+
+def check_modify(cls, widths, pre, post, vals, new, raw):
+    """histories: (construct | unpack) ; pack ; change ONE field ; pack  -> second output reflects exactly the change"""
+    k = sum(widths)
+    nb = k // 8
+    m = len(widths)
+    for j in range(m):
+        if raw is None:
+            p = cls(**dict(("f%d" % i, vals[i]) for i in range(m)))
+            cur = list(vals)
+        else:
+            p = cls.unpack(raw)
+            cur = [getattr(p, "f%d" % i) for i in range(m)]
+        p.pack()
+        setattr(p, "f%d" % j, new)
+        cur[j] = new
+        try:
+            out = p.pack()
+        except PacketError:
+            return "FAIL sig=C07|pack-after-modification-raised|%s field=%d" % (widths, j)
+        if big_endian(out, pre, nb) != expected_int(widths, cur):
+            return "FAIL sig=C07|stale-bits-after-modification|%s field=%d out=%r" % (widths, j, out)
+    return None
+
+
 def check_pack(cls, widths, pre, post, vals, via_setattr):
     k = sum(widths)
     nb = k // 8
@@ -140,6 +173,17 @@ def _make(ix, cls, widths, pre, post):
         assume(len(vals) == m)
         r = check_pack(cls, widths, pre, post, vals, True)
         return r if r is not None else "ok:packed"
+    def mod(vals: List[int], new: int) -> str:
+        assume(len(vals) == m)
+        r = check_modify(cls, widths, pre, post, vals, new, None)
+        return r if r is not None else "ok:packed"
+
+    def modu(raw: bytes, new: int) -> str:
+        assume(len(raw) == nb)
+        r = check_modify(cls, widths, pre, post, None, new, raw)
+        return r if r is not None else "ok:unpacked"
+    HARNESSES["mod_%d" % ix] = mod
+    HARNESSES["modu_%d" % ix] = modu
     HARNESSES["unp_%d" % ix] = unp
     HARNESSES["pck_%d" % ix] = pck
     HARNESSES["pck_setattr_%d" % ix] = pck_setattr
@@ -215,9 +259,10 @@ def build(tier, seed):
             obligations.append({
                 "id": "C07/%s/%s" % (bid, kind), "module": "c07_" + bid.replace("/", "_").replace("-", "_"), "source": src,
                 "fn": ["%s_%d" % (kind, i) for i in range(len(items))], "timeout": timeout,
-                "required_tags": ["unpacked"] if kind == "unp" else ["packed"],
+                "required_tags": ["unpacked"] if kind in ("unp", "modu") else ["packed"],
                 "bound": ("raw = %d symbolic bytes" % nbytes_total) if kind == "unp"
-                else "%d field values, each an unbounded symbolic int" % nf,
+                else ("raw = %d symbolic bytes, new value unbounded int, every field modified in turn" % nbytes_total)
+                if kind == "modu" else "%d field values (+ a new value), each an unbounded symbolic int" % nf,
                 "assertion": "partition identity (MSB-first) and 0<=f<2**w on unpack; output == sum (v mod 2**w)<<s on pack; "
                              "neighbours untouched; %d declarations in this batch (%s)" % (len(items), gen_note),
                 "decl_text": decl, "n_decls": len(items),
@@ -228,7 +273,7 @@ def build(tier, seed):
     for gen in ("generic", "generated"):
         for b in range(0, len(comps8), 16):
             add_batch("k8-%s-%d" % (gen, b // 16), [(w, gen, 0, 0) for w in comps8[b:b + 16]], 1, gen,
-                      kinds=("unp", "pck") + (("pck_setattr",) if b == 0 else ()))
+                      kinds=("unp", "pck", "mod", "modu") + (("pck_setattr",) if b == 0 else ()))
     # embedded runs (between a 1-byte and a 2-byte Int), a spread of compositions
     emb = [c for i, c in enumerate(comps8) if i % 9 == 0] + [(4, 12), (1, 7, 8), (12, 4), (3, 5, 16), (9, 7)]
     emb8 = [c for c in emb if sum(c) == 8]
@@ -236,7 +281,7 @@ def build(tier, seed):
     emb24 = [c for c in emb if sum(c) == 24]
     for gen in ("generic", "generated"):
         add_batch("emb8-%s" % gen, [(w, gen, 1, 2) for w in emb8], 1 + 1 + 2, gen)
-        add_batch("emb16-%s" % gen, [(w, gen, 1, 2) for w in emb16], 1 + 2 + 2, gen)
+        add_batch("emb16-%s" % gen, [(w, gen, 1, 2) for w in emb16], 1 + 2 + 2, gen, kinds=("unp", "pck", "mod", "modu"))
         add_batch("emb24-%s" % gen, [(w, gen, 1, 2) for w in emb24], 1 + 3 + 2, gen)
 
     # k = 16
@@ -270,7 +315,7 @@ def build(tier, seed):
                 add_batch("k%d-%s-%d" % (k, gen, b // 32), [(w, gen, 0, 0) for w in f2[b:b + 32]], k // 8, gen)
 
     # non-multiple-of-8 runs are rejected at class definition
-    totals = [1, 2, 3, 4, 5, 6, 7, 9, 10, 11, 12, 13, 14, 15] if tier != "quick" else [1, 2, 3, 4, 5, 6, 7, 9, 12, 15]
+    totals = [1, 2, 3, 4, 5, 6, 7, 9, 10, 11, 12, 13, 14, 15] if tier != "quick" else [1, 2, 3, 4, 5, 6, 7, 9, 10, 12]
     src = HEADER + BOUNDARY_SRC % dict(totals=totals, fam="comps")
     obligations.append({
         "id": "C07/boundary", "module": "c07_boundary", "source": src, "fn": "boundary", "timeout": timeout,
